@@ -270,6 +270,11 @@ func buildPlan(c *eng.Ctx) ([]tracePlan, map[string]int) {
 		{".", "%2F", "..", "%2F", "x", "%2F", "y"}, {"%2E", "%2E", "%2F", "x", "%2F", "y"}, {"%2e", "%2e", "%2f", "x", "%2f", "y"},
 		{"..", "%252F", "x", "%252F", "y"}, {"x", "%2F", "y", "%2F", ".."}, {"x", "%2F", "..", "%2F", "y"},
 		{"x", "%2F", "y", "%2F", "..", "%2F", ".."}, {"..", "%2F", "x", "%2F", "..", "%2F", "y"},
+		// siblings of the store roots whose names START WITH the root's name (a containment check on path strings instead of
+		// path elements accepts them); "cachex" / "uploadx" are ordinary name tokens for the specification
+		{"..", "/", "cachex", "/", "y"}, {"..", "%2F", "cachex", "%2F", "y"}, {"..", "%2f", "cachex"},
+		{"..", "/", "uploadx", "/", "y"}, {"..", "%2F", "uploadx", "%2F", "y"}, {"..", "%2F", "uploadx"},
+		{"x", "%2F", "..", "%2F", "..", "%2F", "cachex", "%2F", "y"},
 	}
 	stat["wires_deep"] = len(deep)
 	add("tag", tagFull, deep)
@@ -335,7 +340,11 @@ func newSandbox() (*sandbox, error) {
 	// canary farm: the data files of plausible outside names, in every ancestor of the store roots up to the sandbox root
 	anc := sb.base
 	for i := 0; i < 5; i++ {
-		for _, rel := range []string{"data", "x/data", "y/data", "x/y/data", "y/x/data"} {
+		rels := []string{"data", "x/data", "y/data", "x/y/data", "y/x/data"}
+		if i == 0 { // next to the store roots: directories whose names extend the roots' names
+			rels = append(rels, "cachex/data", "cachex/y/data", "uploadx/data", "uploadx/y/data")
+		}
+		for _, rel := range rels {
 			p := filepath.Join(anc, rel)
 			if err := os.MkdirAll(filepath.Dir(p), 0o775); err != nil {
 				return nil, err
